@@ -923,11 +923,10 @@ def li_etal(d0, m_gas, rho_gas, m_oil, rho_oil, mu_p, sigma, rho, mu,
     q_oil = mass2vol(m_oil, rho_oil)
     
     # Get the void-fraction adjusted characteristic exit velocity
-    n = q_gas / (q_gas + q_oil)
-    if fp_type == 0:
-        Uc = 4. * q_gas / (np.pi * d0**2) / n
-    elif fp_type == 1:
-        Uc = 4. * q_oil / (np.pi * d0**2) / (1. - n)
+    # (q_gas / n = q_oil / (1 - n) = q_gas + q_oil with n the gas void 
+    # fraction; written without the division so that a phase with zero flow 
+    # does not evaluate 0 / 0)
+    Uc = 4. * (q_gas + q_oil) / (np.pi * d0**2)
     
     # Compute the particle size distribution for gas and oil
     if fp_type == 0:
